@@ -8,12 +8,12 @@ from job_shop_lib.dispatching import Dispatcher, HistoryObserver
 
 from .. import gen, obs
 from .. import fingerprint as fp
-from ..lib import Driver, build_instance, ref
+from ..lib import Driver, build_instance, disturb, fork, ref
 
 ID = "C02"
 RULE = (
     "Generated: instance (all shapes of DESIGN 2.3, flexible, zero durations) x "
-    "choice sequence x stop point (partial or complete history). Oracle: "
+    "choice sequence x stop point (partial or complete history), optionally with a copy.deepcopy of the dispatcher taken at a generated step and played on separately (both then compared with their own models). Oracle: "
     "lock-step independent simulator - start of every dispatch == max(job "
     "predecessor end, last end on chosen machine); machine/job next-available "
     "times, next-operation indices, scheduled count and makespan compared both "
@@ -53,6 +53,7 @@ def strategy(tier):
             "inst": inst,
             "history": gen.histories(),
             "stop": st.one_of(st.none(), st.none(), st.integers(0, 36)),
+            "fork": gen.pick([None, 1, None, 0, None, 3, None, 5]),
             "observers": gen.weighted((2, st.just([])), (1, obs.feature_configs(min_size=1, max_size=3))),
             # start times never depend on the installed filter (any callable)
             "filters": gen.filter_configs(max_len=2, custom=True),
@@ -152,7 +153,16 @@ def _sequence(case, ctx):
     recorded = []
     snaps = []
     job_decisive = machine_decisive = False
+    forked = None
     for k in range(steps):
+        if case.get("fork") == k:
+            # a planner deep-copies the dispatcher here and looks ahead on the
+            # copy; both keep matching their own histories
+            clone, cmodel = fork(d, model)
+            disturb(clone, cmodel, inst, 2)
+            check_tracking(ctx, inst, clone, cmodel, f"deep copy taken before step {k}, played 2 steps on")
+            forked = (clone, cmodel, k)
+            ctx.label("forked")
         a, b = history[k] if k < len(history) else (0, 0)
         j, p, m = drv.choose(a, b, "ready")
         jf, mf = model.job_free(j), model.machine_free(m)
@@ -195,6 +205,12 @@ def _sequence(case, ctx):
         "history-observer",
         "HistoryObserver.history differs from the dispatch sequence",
     )
+    if forked is not None:
+        clone, cmodel, k0 = forked
+        check_tracking(ctx, inst, clone, cmodel, f"deep copy taken before step {k0}, after the original went on")
+        disturb(clone, cmodel, inst, 2)
+        check_tracking(ctx, inst, clone, cmodel, f"deep copy taken before step {k0}, played on after the original finished")
+        check_tracking(ctx, inst, d, model, "original after its deep copy was played on")
     hist_copy = list(hist.history)
     # (a) replay on a fresh dispatcher over an independently rebuilt instance
     inst2 = build_instance(inst)
